@@ -255,6 +255,12 @@ func c10Material(run *vl.Run) {
 			req := requiredVerdict(w, b)
 			for layout := 0; layout < 4; layout++ {
 				r := placeMaterial(w, b, layout)
+				if !r.Valid() {
+					r.White = !r.White // the placement has the side not to move in check: let that side move
+				}
+				if !r.Valid() {
+					continue // both kings attacked: not a position
+				}
 				p, err := position.NewPositionFen(r.FEN())
 				if err != nil {
 					run.Violate("setup-failed", err.Error(), map[string]interface{}{"fen": r.FEN()})
